@@ -82,6 +82,10 @@ MIX_FORMS = {'ID': [([9, 'p', 99], 8), ([9], 8)],
              'R_A': [([9, 'p', 99], 2), ([9, 'p', 2], 99), ([9, 'p', 2], None)]}
 
 
+# routes of equality filters that name one attribute twice (under two spellings)
+TWICE_FORMS = ['kw', 'dict', 'query', 'any', 'one', 'nav']
+
+
 def spellings(name):
     letters = [i for i, ch in enumerate(name) if ch.isalpha()]
     out = []
@@ -432,6 +436,52 @@ class NameModel(explorer.Model):
                 t = mc.attribute_type(s)
                 if t is None or t.upper() != TYPES[u]:
                     bad('attribute_type', 'attribute_type(%r) is %r' % (s, t), TYPES[u], t)
+        self.twice_filters(ctx, w, bad, mc)
+
+    def twice_filters(self, ctx, w, bad, mc):
+        '''Equality filters with TWO conditions naming one attribute under two spellings: both spellings address the one
+        stored value, so the filter matches the instance iff the stored value equals both values (never when the two
+        values differ, whichever condition is given first).'''
+        import xtuml
+        if DELETED in w.ref.values():
+            return
+        a = w.a
+        for u in ('ID', 'XY'):
+            cur = w.ref[u]
+            others = [v for v in VALS[u] if v != cur][:2]
+            pairs = [(cur, cur)] + [(cur, o) for o in others] + [(o, cur) for o in others] + [(others[0], others[0])]
+            for s1, s2 in itertools.permutations(self.sp[u], 2):
+                for v1, v2 in pairs:
+                    flt = [(s1, v1), (s2, v2)]
+                    exp = [a] if v1 == cur and v2 == cur else []
+                    for form in TWICE_FORMS:
+                        if form == 'nav' and not w.related:
+                            continue
+                        ctx.count('reads')
+                        ctx.count('twice_filters')
+                        d = dict(flt)
+                        if list(d.items()) != flt:
+                            raise ValueError(flt)
+                        if form == 'kw':
+                            got = list(w.m.select_many('aB', xtuml.where_eq(**d)))
+                        elif form == 'dict':
+                            got = list(w.m.select_many('Ab', d))
+                        elif form == 'query':
+                            got = list(mc.query(d))
+                        elif form == 'any':
+                            got = w.m.select_any('AB', xtuml.where_eq(**d))
+                            got = [] if got is None else [got]
+                        elif form == 'one':
+                            got = mc.select_one(d)
+                            got = [] if got is None else [got]
+                        else:
+                            got = list(xtuml.navigate_many(w.c).Ab[1](d))
+                        if len(got) != len(exp) or any(g is not e for g, e in zip(got, exp)):
+                            bad('where_eq:two-spellings', 'the filter %s (form %s) selects %s; the one stored value is %r, so it '
+                                'must select %s' % (' and '.join('%s=%r' % c for c in flt), form,
+                                                    [str(g) for g in got], cur, 'the instance' if exp else 'nothing'),
+                                len(exp), len(got))
+                            return
 
 
 # ---------------------------------------------------------------------------------------------------------------------
